@@ -825,8 +825,8 @@ Proof.
   apply (U (snd k, o) p Io Ip). cbn [snd]. congruence.
 Qed.
 
-(* whichever of the two the tree does (generated fact) *)
-Theorem import_sound_on_tree : forall st,
+(* whichever of the two a tree does (general lemma over the generated fact; not what props/ pins) *)
+Lemma import_sound_either : forall st,
   (if genesis_confirm_owner_by_external then conf_attributed st /\ ext_unique st else bridgers_resolve_to_key st) ->
   forall e, In e (import_conf genesis_confirm_owner_by_external st) -> In e (st_conf st).
 Proof.
@@ -834,6 +834,15 @@ Proof.
   - intros [A U]. apply import_sound_by_external; auto.
   - apply import_sound_by_bridger.
 Qed.
+
+(* C12-1 is repaired: THIS tree looks the owner up by external address.  Pinned, so that going back to the bridger
+   look-up breaks an obligation (and not merely flips which branch of a conditional is used) *)
+Theorem tree_genesis_owner_by_external : genesis_confirm_owner_by_external = true.
+Proof. reflexivity. Qed.
+
+Theorem import_sound_on_tree : forall st, conf_attributed st -> ext_unique st ->
+  forall e, In e (import_conf genesis_confirm_owner_by_external st) -> In e (st_conf st).
+Proof. rewrite tree_genesis_owner_by_external. exact import_sound_by_external. Qed.
 
 (* C12-1: by bridger, without the guard, the faithful model misattributes: oracle 11 confirmed through bridger 21, then
    moved to bridger 23, and oracle 12 took over the released account 21: the import files 11's confirm (external key 31)
@@ -845,7 +854,7 @@ Definition ex_reuse_state : cstate :=
      st_objs := [((KOracleSet, 0, 3), ex_set)];
      st_conf := [(((KOracleSet, 0, 3), 11), ex_msg)] |}.
 
-Theorem import_misattributes_after_bridger_reuse :
+Theorem import_by_bridger_refuted :
   import_conf false ex_reuse_state = [(((KOracleSet, 0, 3), 12), ex_msg)] /\ m_external ex_msg = 31 /\
   assoc Z.eqb 12 (st_oracles ex_reuse_state) = Some {| o_bridger := 21; o_external := 32 |} /\
   import_conf true ex_reuse_state = st_conf ex_reuse_state.
